@@ -88,7 +88,8 @@ def project_qsbr(raw, nthreads):
     (0 stays 0 = offline; 1, 3, 5, ... = 1st, 2nd, 3rd value of the global counter).  L = a load of the global counter by a reader (online, quiescent state, the
     online at the end of its own synchronize_rcu), S / F = store to / flush of its reader word, N = every fence, R = an operation returns, U = the incremented
     global counter becomes visible, C = the leader reads a reader word during its wait, E = the leader releases the grace-period lock"""
-    gm = lambda v: (int(v, 0) + 1) // 2
+    step_, onl = gen_const('qsbr_gp_ctr', 2), gen_const('qsbr_gp_online', 1)      # URCU_QSBR_GP_CTR, URCU_QSBR_GP_ONLINE from the source
+    gm = lambda v: 0 if int(v, 0) == 0 else (int(v, 0) - onl) // step_ + 1
     out = ['T ' + ' '.join(str(i) for i in range(nthreads))]
     lead = {}; last = {}; pend = {}
     for p in events(raw):
